@@ -165,4 +165,7 @@ def refstring(fn):
 
 def is_tooled(fn):
     """Return whether a function has been tooled for Ptera."""
-    return isinstance(fn, types.FunctionType) and hasattr(fn, "__ptera_info__")
+    return (
+        isinstance(fn, types.FunctionType)
+        and getattr(fn, "__ptera_info__", None) is not None
+    )
